@@ -3,65 +3,7 @@
    parsing, printing, comparison.  Part of the trusted base of the correspondence check. *)
 module BZ = Z
 open Model
-
-(* ---------- number conversion (extracted positive/N/Z  <->  zarith) ---------- *)
-let rec pos_of_bz (x : BZ.t) : positive =
-  if BZ.equal x BZ.one then XH
-  else if BZ.testbit x 0 then XI (pos_of_bz (BZ.shift_right x 1))
-  else XO (pos_of_bz (BZ.shift_right x 1))
-
-let n_of_bz (x : BZ.t) : n = if BZ.sign x = 0 then N0 else Npos (pos_of_bz x)
-let z_of_bz (x : BZ.t) : z =
-  if BZ.sign x = 0 then Z0 else if BZ.sign x > 0 then Zpos (pos_of_bz x) else Zneg (pos_of_bz (BZ.neg x))
-
-let rec bz_of_pos (p : positive) : BZ.t =
-  match p with
-  | XH -> BZ.one
-  | XO q -> BZ.shift_left (bz_of_pos q) 1
-  | XI q -> BZ.succ (BZ.shift_left (bz_of_pos q) 1)
-
-let bz_of_n = function N0 -> BZ.zero | Npos p -> bz_of_pos p
-let bz_of_z = function Z0 -> BZ.zero | Zpos p -> bz_of_pos p | Zneg p -> BZ.neg (bz_of_pos p)
-
-let n_of_string s = n_of_bz (BZ.of_string s)
-let z_of_string s = z_of_bz (BZ.of_string s)
-let string_of_n x = BZ.to_string (bz_of_n x)
-let string_of_z x = BZ.to_string (bz_of_z x)
-let int_of_n x = BZ.to_int (bz_of_n x)
-let n_of_int i = n_of_bz (BZ.of_int i)
-let rec nat_of_int i = if i <= 0 then O else S (nat_of_int (i - 1))
-let rec int_of_nat = function O -> 0 | S m -> 1 + int_of_nat m
-
-(* ---------- printing (must match the harness byte for byte) ---------- *)
-let hex_of_row (r : n list) : string =
-  String.concat "" (List.map (fun b -> Printf.sprintf "%02x" (int_of_n b)) r)
-
-let str_sketch (s : sketch) : string =
-  Printf.sprintf "mask=%s rows=%s" (string_of_n s.sk_mask)
-    (String.concat "," (List.map hex_of_row s.sk_rows))
-
-let str_bloom (b : bloom) : string =
-  Printf.sprintf "size=%s exp=%s locs=%s shift=%s words=%s" (string_of_n b.bl_size)
-    (string_of_n b.bl_exp) (string_of_n b.bl_locs) (string_of_n b.bl_shift)
-    (String.concat "," (List.map string_of_n b.bl_words))
-
-let str_tlfu (t : tinylfu) : string =
-  Printf.sprintf "samples=%s w=%s %s %s" (string_of_n t.tl_samples) (string_of_n t.tl_w)
-    (str_sketch t.tl_sk) (str_bloom t.tl_bl)
-
-let str_kc (kc : z amap) : string =
-  let l = asort kc in
-  if l = [] then "-" else
-  String.concat "," (List.map (fun (k, c) -> string_of_n k ^ ":" ^ string_of_z c) l)
-
-let str_slfu (s : slfu) : string =
-  Printf.sprintf "max=%s used=%s kc=%s" (string_of_z s.sl_max) (string_of_z s.sl_used) (str_kc s.sl_kc)
-
-let str_metrics (m : metrics) : string = String.concat "," (List.map string_of_n m)
-
-let str_pairs (l : (n * z) list) : string =
-  if l = [] then "-" else
-  String.concat "," (List.map (fun (k, c) -> string_of_n k ^ ":" ^ string_of_z c) l)
+open Conv
 
 (* ---------- model state per suite ---------- *)
 type pol_state = { p_s : slfu; p_t : tinylfu; p_m : metrics }
